@@ -5,6 +5,7 @@ import (
 	"go/ast"
 	"go/token"
 	"go/types"
+	"math"
 	"os"
 	"runtime/debug"
 	"sort"
@@ -298,9 +299,10 @@ func (c *Ctx) fractionEncoder(info *types.Info) {
 		ret     string
 		qs      map[int64]bool
 		why     string
+		deltas  map[int64]sv // argument of math.Abs per denominator: the error that is minimised
 	}
 	run := func(integral bool, bestAt int64, clamp int) result {
-		res := result{qs: map[int64]bool{}}
+		res := result{qs: map[int64]bool{}, deltas: map[int64]sv{}}
 		ev := &ssaEval{c: c, bind: map[ssa.Value]sv{}, mem: map[string]sv{}, orderMinMax: true}
 		ev.noInline = func(f *ssa.Function) bool {
 			// the integer and command encoders are opaque: func([]byte, T) []byte
@@ -342,6 +344,9 @@ func (c *Ctx) fractionEncoder(info *types.Info) {
 				curQ = q
 				return symV(fmt.Sprintf("R%d", q)), true
 			case "math.Abs":
+				if len(args) == 1 {
+					res.deltas[curQ] = args[0]
+				}
 				return symV(fmt.Sprintf("D%d", curQ)), true
 			case "math.Inf":
 				return symV("inf"), true
@@ -450,6 +455,40 @@ func (c *Ctx) fractionEncoder(info *types.Info) {
 		}
 	}
 	c.check(len(bad) == 0, "NUM-FRAC", fname, "`p q div` is emitted and p/q of the same p,q is returned", fn.Pos(), "best approximation at q = 1, 50, 107 evaluated", "fraction encoder: "+joinMax(bad, 2))
+	// the error that is minimised is that of the value written, |p/q - x|, in glyph units: the term
+	// handed to math.Abs is evaluated numerically at sample points (R<q> = round(x*q)) and compared
+	// with |round(x*q)/q - x|; a term the evaluation cannot follow is left undecided by this clause
+	// (note), a term that evaluates to something else (e.g. the error of the numerator, |p - x*q|,
+	// which prefers small denominators) is a violation.
+	{
+		var badD []string
+		nD, skipped := 0, 0
+		for q := int64(2); q <= 107; q++ {
+			t, ok := rs.deltas[q]
+			if !ok {
+				continue
+			}
+			for _, x := range []float64{0.3, 5 + 1.0/213, -7.77, 1234.5678} {
+				got, okE := numEvalFrac(t, x, q)
+				if !okE {
+					skipped++
+					break
+				}
+				nD++
+				want := math.Abs(math.Round(x*float64(q))/float64(q) - x)
+				if math.Abs(math.Abs(got)-want) > 1e-9*(1+want) {
+					badD = append(badD, fmt.Sprintf("at denominator %d the candidates are ranked by |%s|, which for x=%g is %g; the error of the value written is %g", q, t.String(), x, math.Abs(got), want))
+					break
+				}
+			}
+		}
+		if skipped > 0 || nD == 0 {
+			c.note("NUM-FRAC: the ranking term of %d denominators could not be evaluated numerically (%d evaluated)", skipped, nD)
+		}
+		if nD > 0 || len(badD) > 0 {
+			c.check(len(badD) == 0, "NUM-FRAC", fname, "candidates are ranked by the error of the value written, |p/q - x|", fn.Pos(), fmt.Sprintf("%d sample evaluations of the ranking term", nD), "fraction encoder: "+joinMax(badD, 2))
+		}
+	}
 	hi := run(false, 7, 1)
 	lo := run(false, 7, -1)
 	okClamp := len(hi.emitted) == 3 && hi.emitted[0] == "int(2147483647)" && len(lo.emitted) == 3 && lo.emitted[0] == "int(-2147483648)"
@@ -1068,4 +1107,45 @@ func (c *Ctx) noNarrowing() {
 		}
 	}
 	c.floor("NUM-NARROW", 10)
+}
+
+// numEvalFrac evaluates a float term of appendNumber's search loop at x, with R<q> = round(x*q).
+func numEvalFrac(t sv, x float64, q int64) (float64, bool) {
+	switch t.k {
+	case svFloat:
+		return t.f, true
+	case svInt:
+		return float64(t.i), true
+	case svSym:
+		if t.op == "" {
+			switch {
+			case t.s == "x":
+				return x, true
+			case t.s == fmt.Sprintf("R%d", q):
+				return math.Round(x * float64(q)), true
+			}
+			return 0, false
+		}
+		var a []float64
+		for _, u := range t.args {
+			v, ok := numEvalFrac(u, x, q)
+			if !ok {
+				return 0, false
+			}
+			a = append(a, v)
+		}
+		switch {
+		case t.op == "neg" && len(a) == 1:
+			return -a[0], true
+		case t.op == "+" && len(a) == 2:
+			return a[0] + a[1], true
+		case t.op == "-" && len(a) == 2:
+			return a[0] - a[1], true
+		case t.op == "*" && len(a) == 2:
+			return a[0] * a[1], true
+		case t.op == "/" && len(a) == 2:
+			return a[0] / a[1], true
+		}
+	}
+	return 0, false
 }
